@@ -51,6 +51,9 @@ const (
 	// basicExport returns an error while the docID iterator of GetAllDocIDs is still open; the
 	// deferred Txn.Discard of BasicExport panics.
 	sigExportPanic = "C18/export/panic-unclosed-iterator-on-error-return"
+	// a document referencing itself through two relation fields: the export remembers only one
+	// self-referencing field, the other keeps the old id.
+	sigTwoSelf = "C18/export/two-self-references-in-one-doc"
 )
 
 var rec = hx.NewRecorder("C18",
@@ -488,7 +491,7 @@ func genLink() *rapid.Generator[Link] {
 func drawCase(t *rapid.T) Case {
 	var c Case
 	c.NoLossy = rapid.Bool().Draw(t, "noLossy") && rec.IsKnown(sigLossy)
-	c.NoChain = rapid.Bool().Draw(t, "noChain") && (rec.IsKnown(sigChain) || rec.IsKnown(sigCycle))
+	c.NoChain = rapid.Bool().Draw(t, "noChain") && (rec.IsKnown(sigChain) || rec.IsKnown(sigCycle) || rec.IsKnown(sigTwoSelf))
 	c.NoDel = rapid.Bool().Draw(t, "noDel") && (rec.IsKnown(sigDeleted) || rec.IsKnown(sigExportPanic))
 	nc := rapid.SampledFrom([]int{1, 2, 2, 2, 3, 3, 4}).Draw(t, "ncols")
 	for i := 0; i < nc; i++ {
@@ -506,7 +509,7 @@ func drawCase(t *rapid.T) Case {
 	c.Rels = []Rel{}
 	for i := 0; i < nr; i++ {
 		r := Rel{From: rapid.IntRange(0, nc-1).Draw(t, "from"), Many: rapid.Bool().Draw(t, "many")}
-		if nc == 1 || rapid.IntRange(0, 3).Draw(t, "selfrel") == 0 {
+		if nc == 1 || rapid.IntRange(0, 2).Draw(t, "selfrel") == 0 {
 			r.To = r.From
 		} else {
 			// another collection (a relation into the own collection is drawn above)
@@ -554,7 +557,7 @@ func drawCase(t *rapid.T) Case {
 			s.Op = "link"
 			s.Doc = rapid.IntRange(0, 30).Draw(t, "doc")
 			s.Rel = rapid.IntRange(0, 3).Draw(t, "rel")
-			if rapid.IntRange(0, 4).Draw(t, "selflink") == 0 {
+			if rapid.IntRange(0, 2).Draw(t, "selflink") == 0 {
 				s.Link = Link{Mode: "self"}
 			} else {
 				s.Link = genLink().Draw(t, "link")
@@ -1143,7 +1146,7 @@ func (fs *findings) add(sig, format string, args ...any) {
 // verdict: an undiagnosed discrepancy wins over a diagnosed one, so that a listed finding
 // never hides a different violation in the same case.
 func (fs *findings) verdict() *hx.Failure {
-	diagnosed := map[string]bool{sigLossy: true, sigChain: true, sigCycle: true, sigDeleted: true, sigExportPanic: true}
+	diagnosed := map[string]bool{sigLossy: true, sigChain: true, sigCycle: true, sigDeleted: true, sigExportPanic: true, sigTwoSelf: true}
 	for _, f := range fs.list {
 		if !diagnosed[f.sig] {
 			return hx.Failf(f.sig, "%s", f.msg)
@@ -1387,6 +1390,15 @@ func run(c Case) (*hx.Failure, *info) {
 		return false
 	}
 
+	selfRefs := func(name, id string) int {
+		n := 0
+		for _, p := range colByName[name].prims {
+			if srcFK(name, id, p.field) == id {
+				n++
+			}
+		}
+		return n
+	}
 	// leadsToCycle: following foreign keys from v one arrives at a document that lies on a cycle of
 	// at least two documents (a plain self reference is not a cycle in this sense).
 	leadsToCycle := func(v string) bool {
@@ -1493,6 +1505,10 @@ func run(c Case) (*hx.Failure, *info) {
 				// diagnose
 				target := ef.byOld[v]
 				switch {
+				case v == fd.old && selfRefs(name, fd.old) >= 2:
+					fs.add(sigTwoSelf, "%s %s references itself through %d fields; %s_id is %q in the file, its _docIDNew is %q", name, fd.old, selfRefs(name, fd.old), p.field, got, want)
+					taintedFK[fd.old+"/"+p.field] = true
+					anyTaint = true
 				case v != fd.old && (reaches(v, fd.old) || leadsToCycle(v)):
 					// on a cycle, or upstream of one: the new id of v depends on ids that cannot be made consistent
 					fs.add(sigCycle, "%s %s: %s_id -> %s lies on, or leads to, a reference cycle of two or more documents; file has %q, mapping promises %q", name, fd.old, p.field, v, got, want)
@@ -1528,7 +1544,7 @@ func run(c Case) (*hx.Failure, *info) {
 		}
 	}
 	for _, f := range fs.list {
-		if f.sig != sigChain && f.sig != sigCycle {
+		if f.sig != sigChain && f.sig != sigCycle && f.sig != sigTwoSelf {
 			return fs.verdict(), in
 		}
 	}
@@ -1670,7 +1686,7 @@ func run(c Case) (*hx.Failure, *info) {
 		}
 	}
 	for _, f := range fs.list {
-		if f.sig != sigChain && f.sig != sigCycle && f.sig != sigLossy {
+		if f.sig != sigChain && f.sig != sigCycle && f.sig != sigLossy && f.sig != sigTwoSelf {
 			return fs.verdict(), in
 		}
 	}
